@@ -77,7 +77,7 @@ type reqSpec struct {
 	root     int
 	sel      datamodel.Node
 	selDesc  string
-	dedup    int   // 0 = none, else key number
+	dedup    int   // 0 = no extension, 1/2 = "key-1"/"key-2", 3 = the EMPTY string (a key like any other)
 	ignore   []int // nil = no extension; block numbers (>= len(blocks): CIDs outside the DAG)
 	hasIgn   bool
 	skip     int64
@@ -304,7 +304,7 @@ func genWorld(c respCase) (*world, error) {
 		}
 		rs.sel, rs.selDesc = genSelector(r)
 		if r.P(1, 3) {
-			rs.dedup = r.Range(1, 2)
+			rs.dedup = r.Range(1, 3)
 		}
 		if r.P(1, 3) {
 			rs.hasIgn = true
@@ -434,8 +434,13 @@ func genWorld(c respCase) (*world, error) {
 		for q, rs := range w.reqs {
 			rs.root, rs.hasIgn, rs.hasSkip, rs.ignore = 0, false, false, nil
 			rs.dedup = 0
-			if c.Seed%2 == 1 {
+			switch c.Seed % 3 {
+			case 1:
 				rs.dedup = q + 1 // different keys: both get every block
+			case 2:
+				if q == 1 {
+					rs.dedup = 3 // keyless request and a request keyed by the empty string: different scopes
+				}
 			}
 			rs.sel, rs.selDesc = dag.AllSelector(), "all-recursive"
 			var err error
@@ -761,7 +766,7 @@ func play(w *world, sr *rng.R, wait time.Duration) (*runResult, error) {
 				exts = append(exts, graphsync.ExtensionData{Name: graphsync.ExtensionDoNotSendCIDs, Data: cidset.EncodeCidSet(set)})
 			}
 			if rs.dedup != 0 {
-				nd, err := dedupkey.EncodeDedupKey(fmt.Sprintf("key-%d", rs.dedup))
+				nd, err := dedupkey.EncodeDedupKey(dedupKeyString(rs.dedup))
 				if err != nil {
 					return nil, err
 				}
@@ -879,7 +884,7 @@ func run(c *drv.Ctx) error {
 	})
 	w.Stats.Rule = "one peer, a random DAG (1-12 blocks: nested maps/lists, shared children, links in inline nodes, raw and dag-cbor leaves, empty raw blocks, identity CIDs), " +
 		"a random responder store (1/6 of blocks missing incl. roots; occasional read error / undecodable block), 1-3 requests rooted in the same DAG with random selectors " +
-		"(all-recursive with depth, fields, range, index, union, matcher) and random do-not-send-cids / do-not-send-first-blocks (0,1,mid,total,>total) / dedup-by-key (2 keys) extensions, " +
+		"(all-recursive with depth, fields, range, index, union, matcher) and random do-not-send-cids / do-not-send-first-blocks (0,1,mid,total,>total) / dedup-by-key (3 keys, one of them the empty string) extensions, " +
 		"served by the real ResponseManager+QueryExecutor+TaskQueue+ResponseAssembler under a driver-chosen interleaving (store gate); " +
 		"non-trivial = some block was withheld (skip / ignore / dedup) AND some block was sent AND some link was missing or >= 2 requests ran; distinct = distinct terms"
 	debug := os.Getenv("GSDRIVE_DEBUG") != ""
@@ -955,6 +960,9 @@ func run(c *drv.Ctx) error {
 		emptyPresent := false
 		for q, rs := range wd.reqs {
 			_ = q
+			if rs.dedup == 3 {
+				tags = append(tags, "ext:dedup-by-key-empty-string")
+			}
 			if rs.dedup != 0 {
 				tags = append(tags, "ext:dedup-by-key")
 			}
@@ -1074,6 +1082,14 @@ func run(c *drv.Ctx) error {
 		}
 	}
 	return w.Flush()
+}
+
+// dedupKeyString: key 3 is the empty string, which is a dedup key like any other (its own scope)
+func dedupKeyString(k int) string {
+	if k == 3 {
+		return ""
+	}
+	return fmt.Sprintf("key-%d", k)
 }
 
 func dedupStrings(xs []string) []string {
